@@ -10,7 +10,10 @@ Definition R (k : Z) (a b : option Z) : row := (k, a, b).
 Definition FK (c : nat) (col : bool) (p : nat) (d u : action) : fk := mkFk c col p d u.
 
 (* statement, observed error (None = ok), observed tables afterwards *)
-Inductive ev := Ev (s : stmt) (e : option err) (d : db).
+(* EvSkip: a statement of a shape the model does not cover (the driver marks exactly: DELETE of a row that has two or
+   more ON DELETE CASCADE children in its own table, where the engine skips rows while iterating the table it is
+   deleting from); the run continues from the observed tables *)
+Inductive ev := Ev (s : stmt) (e : option err) (d : db) | EvSkip (d : db).
 Inductive case := Case (ntab : nat) (fks : list fk) (h : list ev).
 
 Definition row_eqb (a b : row) : bool :=
@@ -30,6 +33,7 @@ Fixpoint ok_from (fks : list fk) (d : db) (h : list ev) : bool :=
   | Ev s e dobs :: h' =>
       let '(d', e') := exec fks d s in
       err_eqb e e' && db_eqb d' dobs && ok_from fks dobs h'
+  | EvSkip dobs :: h' => ok_from fks dobs h'
   end.
 
 Definition ok (c : case) : bool := match c with Case n fks h => ok_from fks (repeat [] n) h end.
